@@ -27,8 +27,10 @@ CONFIG = {
             "are also issued by reader goroutines that are HELD right after their SQL query (au.accountsq is wrapped in-package) and "
             "released at random later points, so that their cache write lands after further blocks / commits / evictions.  Scripted "
             "cases: the two ill-formed histories of the necessity witnesses, and three late-landing schedules (account row, not-found "
-            "note, box) across a commit and a cache turnover (signature late_pending_cache_write).  Non-trivial = well-formed history, "
-            "at least one (ok ...) answer and one completed commit; distinct = distinct case lines.",
+            "note, box) across a commit and a cache turnover (listed finding late_pending_cache_write: the model, which is the code as "
+            "it is, gives the same stale answers).  lookupLatest (the tracker part of Ledger.LookupAccount) is queried for every "
+            "account before each reload and at the end of a run and judged by the oracle only.  Non-trivial = well-formed history, at "
+            "least one (ok ...) answer and one completed commit; distinct = distinct case lines.",
     "exhaustive": {"quick": False, "thorough": False},
     "explanation": "theorems quantify over every operation sequence (any partition of the history into commits, any interleaving of "
                    "blocks / lookups / commit phases / reloads / evictions), every lookback and cache size, every history the evaluator "
@@ -41,9 +43,12 @@ CONFIG = {
         "on existing accounts, a creatable index is created at most once and has one type",
         "atomicity of the modelled steps: newBlock, each lookup's memory phase and postCommit run under accountsMu; the commit "
         "transaction is atomic (SQLite); a lookup's DB read sees either the state before or after that transaction",
-        "the model is the repaired flush of the base caches (flushPendingWritesSince, fixes/C08.patch): a lookup's cache write may land "
-        "at ANY later time (explicit held-reader operations); for the original flushPendingWrites the property is refuted "
-        "(C08_late_pending_refuted, replayed with a real held reader goroutine)",
+        "lands_ok: a lookup queues what it read from the DB for the base cache AFTER dropping accountsMu; the theorems about the code "
+        "as it is assume that such a write, when it is delayed (explicit held-reader operations), lands while the DB round it was "
+        "read at is still current or while a newer cache entry for the key is still cached.  Without this the property is refuted "
+        "(C08_late_pending_refuted = finding late_pending_cache_write, replayed with real reader goroutines held after their SQL "
+        "query: account row, not-found note, box; thorough also with a real 100002-account cache turnover).  Runs without held "
+        "readers and every run against fixes/proposed/C08.patch meet the assumption (C08_prompt_runs, C08_*_with_proposed_fix)",
     ],
     "trusted_base": [
         "modelled: ledger/acctupdates.go (newBlockImpl, lookupWithoutRewards, lookupResource, lookupKv, getCreatorForRound, "
@@ -51,7 +56,8 @@ CONFIG = {
         "acctdeltas.go (makeCompact*Deltas, accountsNewRoundImpl), tracker.go (scheduleCommit, commitSyncer, commitRound, replay) as "
         "coq/model/Tracker.v; SQL statements are map operations on per-space tables (row ids, the accountbase/resources join and the "
         "ctype filter of DeleteCreatable are not modelled; covered by the correspondence run only)",
-        "not modelled: lookupLatest (rewards + resource aggregation), the listing functions (C10), onlineAccounts (C13), catchpoints, "
+        "not modelled: lookupLatest (rewards + resource aggregation; its answers are checked against state_at only), the listing "
+        "functions (C10), onlineAccounts (C13), catchpoints, "
         "time/size based flush throttling of scheduleCommit (taken as met), initializeCachesRoundFlushInterval during replay",
         "LRU order of the resource and KV caches after postCommit depends on Go map iteration: the harness only evicts them completely "
         "or not at all (the account cache is evicted to arbitrary sizes)",
